@@ -11,12 +11,67 @@
 use pavex::cookie::config::{CryptoAlgorithm, CryptoRule};
 use pavex::cookie::{Key, Processor, ProcessorConfig, ResponseCookies, SameSite};
 use pavex_session::config::{MissingServerState, ServerStateCreation, SessionCookieKind, TtlExtensionThreshold, TtlExtensionTrigger};
-use pavex_session::store::{SessionRecordRef, SessionStorageBackend};
+use pavex_session::store::errors::*;
+use pavex_session::store::{SessionRecord, SessionRecordRef, SessionStorageBackend};
 use pavex_session::{IncomingSession, Session, SessionConfig, SessionId, SessionStore};
 use pavex_session_memory_store::InMemorySessionStore;
 use serde_json::{Value, json};
 use std::borrow::Cow;
 use std::collections::{BTreeMap, HashMap};
+
+/// The real in-memory store behind a fault injector for the one documented store race: "the old
+/// state is no longer in the store - e.g. it may have expired while we were processing". When
+/// armed with an id, the record filed under it is dropped right before the next store call.
+#[derive(Clone)]
+struct Racy {
+    inner: InMemorySessionStore,
+    armed: std::sync::Arc<std::sync::Mutex<Option<SessionId>>>,
+    fired: std::sync::Arc<std::sync::atomic::AtomicBool>,
+}
+impl std::fmt::Debug for Racy {
+    fn fmt(&self, f: &mut std::fmt::Formatter<'_>) -> std::fmt::Result {
+        f.write_str("Racy")
+    }
+}
+impl Racy {
+    async fn tick(&self) {
+        let id = self.armed.lock().unwrap().take();
+        if let Some(id) = id {
+            let _ = self.inner.delete(&id).await;
+            self.fired.store(true, std::sync::atomic::Ordering::SeqCst);
+        }
+    }
+}
+#[async_trait::async_trait]
+impl SessionStorageBackend for Racy {
+    async fn create(&self, id: &SessionId, record: SessionRecordRef<'_>) -> Result<(), CreateError> {
+        self.tick().await;
+        self.inner.create(id, record).await
+    }
+    async fn update(&self, id: &SessionId, record: SessionRecordRef<'_>) -> Result<(), UpdateError> {
+        self.tick().await;
+        self.inner.update(id, record).await
+    }
+    async fn update_ttl(&self, id: &SessionId, ttl: std::time::Duration) -> Result<(), UpdateTtlError> {
+        self.tick().await;
+        self.inner.update_ttl(id, ttl).await
+    }
+    async fn load(&self, id: &SessionId) -> Result<Option<SessionRecord>, LoadError> {
+        self.tick().await;
+        self.inner.load(id).await
+    }
+    async fn delete(&self, id: &SessionId) -> Result<(), DeleteError> {
+        self.tick().await;
+        self.inner.delete(id).await
+    }
+    async fn change_id(&self, old: &SessionId, new: &SessionId) -> Result<(), ChangeIdError> {
+        self.tick().await;
+        self.inner.change_id(old, new).await
+    }
+    async fn delete_expired(&self, b: Option<std::num::NonZeroUsize>) -> Result<usize, DeleteExpiredError> {
+        self.inner.delete_expired(b).await
+    }
+}
 
 type Map = BTreeMap<String, Value>;
 type State = HashMap<Cow<'static, str>, Value>;
@@ -128,7 +183,8 @@ async fn run(script: &Value) -> Result<(), Fail> {
     });
 
     let backend = InMemorySessionStore::new();
-    let store = SessionStore::new(backend.clone());
+    let racy = Racy { inner: backend.clone(), armed: Default::default(), fired: Default::default() };
+    let store = SessionStore::new(racy.clone());
     // model of the store: id -> values
     let mut mstore: HashMap<SessionId, Map> = HashMap::new();
     if let Some(recs) = script["store"].as_array() {
@@ -259,8 +315,14 @@ async fn run(script: &Value) -> Result<(), Fail> {
                         m.client.clear();
                     }
                 }
-                "sync" | "finalize" => {
+                "sync" | "finalize" | "sync_with_expiry_race" => {
                     let is_final = name == "finalize";
+                    let race = name == "sync_with_expiry_race";
+                    if race {
+                        // the record vanishes at the first store call this sync makes
+                        *racy.armed.lock().unwrap() = rec_id;
+                        racy.fired.store(false, std::sync::atomic::Ordering::SeqCst);
+                    }
                     let client_non_empty = !m.invalidated && !m.client.is_empty();
                     let outcome = if is_final && processor.is_some() && ri == 0 {
                         // C12: the real middleware, a real Processor with the requested crypto rule
@@ -307,8 +369,23 @@ async fn run(script: &Value) -> Result<(), Fail> {
                     } else {
                         s.sync().await.map(|_| None).map_err(|e| format!("{e:?}"))
                     };
+                    let fired = race && racy.fired.load(std::sync::atomic::Ordering::SeqCst);
+                    *racy.armed.lock().unwrap() = None;
+                    if fired {
+                        cur_rec = None;
+                        if let Some(old) = rec_id {
+                            mstore.remove(&old);
+                        }
+                    }
                     let rec_before = cur_rec.clone();
                     let cookie = match outcome {
+                        Err(_) if fired => {
+                            // with the race, failing is acceptable (the ttl refresh of a vanished record has
+                            // nothing to fall back to); what is not acceptable is succeeding wrongly
+                            ended = true;
+                            previous = incoming.clone();
+                            continue;
+                        }
                         Err(e) => {
                             // the one documented failure
                             check!(m.view == View::NotLooked && m.cycled && rec_before.is_none(),
